@@ -470,17 +470,20 @@ def expected_token(text):
         except OverflowError:
             return None
         return {"kind": "FloatLit", "bits": str(bits), "span": span}
-    if len(text) >= 2 and text[0] in "\"'" :
-        q, i, out = text[0], 1, []
+    bytes_lit = len(text) >= 3 and text[0] == "b" and text[1] in "\"'"
+    if bytes_lit or (len(text) >= 2 and text[0] in "\"'"):
+        q, i, out = (text[1], 2, []) if bytes_lit else (text[0], 1, [])
         simple = {"a": 7, "b": 8, "f": 12, "n": 10, "r": 13, "t": 9, "v": 11, "\\": 92, "'": 39, '"': 34}
         while True:
             if i >= len(text):
                 return {"error": True}
             c = text[i]
             if c == q:
-                return {"kind": "StringLit", "chars": out, "span": span} if i == len(text) - 1 else None
+                if i != len(text) - 1:
+                    return None
+                return {"kind": "ByteStringLit", "bytes": out, "span": span} if bytes_lit else {"kind": "StringLit", "chars": out, "span": span}
             if c != "\\":
-                out.append(ord(c))
+                out.extend(list(c.encode("utf-8"))) if bytes_lit else out.append(ord(c))
                 i += 1
                 continue
             if i + 1 >= len(text):
@@ -491,6 +494,8 @@ def expected_token(text):
                 out.append(simple[e])
                 continue
             w = {"x": 2, "X": 2, "u": 4, "U": 8}.get(e)
+            if bytes_lit and e in "uU":
+                return None
             if w:
                 d = text[i:i + w]
                 if len(d) < w or not _re.fullmatch(r"[0-9a-fA-F]+", d):
@@ -506,7 +511,7 @@ def expected_token(text):
                 if len(d) < 3 or not _re.fullmatch(r"[0-7]{3}", d):
                     return {"error": True}
                 if int(d, 8) > 0o377:
-                    return None
+                    return {"error": True} if bytes_lit else None
                 out.append(int(d, 8))
                 i += 2
                 continue
